@@ -189,22 +189,31 @@ def h_small_rules(eng):
 SUP_KINDS = ['any', 'cls0', 'G<Y>', 'G<cls>', 'G<G<Y>>']
 
 
-def gen_table(eng, nmax, two_param=False, fixed_n=None):
+def gen_table(eng, nmax, two_param=False, fixed_n=None, vary_bounds=True, fix=None):
+    fix = fix or {}
+
+    def sel(name, lo, hi):
+        if name in fix:
+            return fix[name]
+        return int(eng.fresh_int(lo, hi, name))
     n = fixed_n if fixed_n is not None else int(eng.fresh_int(1, nmax, 'n'))
-    ext = [int(bool(eng.fresh_bool('ext'))) for _ in range(univ.n_ext_bits(n))]
-    gv = int(eng.fresh_int(0, 2, 'gvar'))
-    gb = int(eng.fresh_int(0, 1, 'gbound'))
+    if 'ext' in fix:
+        ext = list(fix['ext'])[:univ.n_ext_bits(n)]
+    else:
+        ext = [int(bool(eng.fresh_bool('ext'))) for _ in range(univ.n_ext_bits(n))]
+    gv = sel('gvar', 0, 2)
+    gb = sel('gbound', 0, 1) if vary_bounds else 0
     gs = [dict(name='G', params=[('X', gv, ('cls', 0) if gb else None)], sup=('any',))]
     if not two_param:
-        hv = int(eng.fresh_int(0, 2, 'hvar'))
-        hb = int(eng.fresh_int(0, 1, 'hbound'))
-        hs = int(eng.fresh_int(0, len(SUP_KINDS) - 1, 'hsup'))
+        hv = sel('hvar', 0, 2)
+        hb = sel('hbound', 0, 1) if vary_bounds else 0
+        hs = sel('hsup', 0, len(SUP_KINDS) - 1)
         sup = {0: ('any',), 1: ('cls', 0), 2: ('gen', 0, [('var', 'Y')]),
                3: ('gen', 0, [('cls', n - 1)]), 4: ('gen', 0, [('gen', 0, [('var', 'Y')])])}[hs]
         gs.append(dict(name='H', params=[('Y', hv, ('cls', 0) if hb else None)], sup=sup))
     if two_param:
-        v1 = int(eng.fresh_int(0, 2, 'p1'))
-        v2 = int(eng.fresh_int(0, 2, 'p2'))
+        v1 = sel('p1', 0, 2)
+        v2 = sel('p2', 0, 2)
         gs.append(dict(name='K', params=[('U', v1, None), ('V', v2, None)], sup=('any',)))
     table = univ.build_table(n, ext, gs)
     return table
